@@ -47,27 +47,48 @@ func NewGuardianSets(
 	return gs
 }
 
-func (gs *GuardianSets) GetGuardianSet(ctx context.Context, index int) (*common.GuardianSet, error) {
+// lookup reads the guardian set with the given index and the current index under the lock;
+// ok is false when the index is beyond the current one.
+func (gs *GuardianSets) lookup(index int) (guardianSet *common.GuardianSet, currentIndex int, ok bool) {
+	gs.lock.Lock()
+	defer gs.lock.Unlock()
 	if index <= gs.currentGuardianSetIndex {
-		return gs.guardianSetLists[index], nil
+		return gs.guardianSetLists[index], gs.currentGuardianSetIndex, true
+	}
+	return nil, gs.currentGuardianSetIndex, false
+}
+
+func (gs *GuardianSets) GetGuardianSet(ctx context.Context, index int) (*common.GuardianSet, error) {
+	guardianSet, currentIndex, ok := gs.lookup(index)
+	if ok {
+		return guardianSet, nil
 	}
 
 	// Perhaps the guardian set has been updated and we need to query from the chain
-	guardianSets, err := gs.getGuardianSetsRange(ctx, uint32(gs.currentGuardianSetIndex+1), uint32(index))
+	guardianSets, err := gs.getGuardianSetsRange(ctx, uint32(currentIndex+1), uint32(index))
 	if err != nil {
 		return nil, err
 	}
 	gs.updateGuardianSets(guardianSets)
 	gs.guardianSetC <- gs.GetCurrentGuardianSet()
 
-	if index > gs.currentGuardianSetIndex {
-		return nil, fmt.Errorf("invalid guardian index %v, current guardian set index: %v", index, gs.currentGuardianSetIndex)
+	guardianSet, currentIndex, ok = gs.lookup(index)
+	if !ok {
+		return nil, fmt.Errorf("invalid guardian index %v, current guardian set index: %v", index, currentIndex)
 	}
-	return gs.guardianSetLists[index], nil
+	return guardianSet, nil
 }
 
 func (gs *GuardianSets) GetCurrentGuardianSet() *common.GuardianSet {
+	gs.lock.Lock()
+	defer gs.lock.Unlock()
 	return gs.guardianSetLists[gs.currentGuardianSetIndex]
+}
+
+func (gs *GuardianSets) currentIndex() int {
+	gs.lock.Lock()
+	defer gs.lock.Unlock()
+	return gs.currentGuardianSetIndex
 }
 
 func (gs *GuardianSets) UpdateGuardianSet(ctx context.Context) {
@@ -80,7 +101,7 @@ func (gs *GuardianSets) updateGuardianSet(ctx context.Context) {
 	for {
 		select {
 		case <-tick.C:
-			guardianSets, err := GetGuardianSetsFromChain(ctx, gs.ethRpcUrl, gs.ethGovernanceAddress, uint32(gs.currentGuardianSetIndex+1))
+			guardianSets, err := GetGuardianSetsFromChain(ctx, gs.ethRpcUrl, gs.ethGovernanceAddress, uint32(gs.currentIndex()+1))
 			if err != nil {
 				gs.logger.Error("failed to get guardian sets", zap.Error(err))
 				continue
